@@ -109,6 +109,18 @@ def cases(draw, tier="quick"):
     return base
 
 
+FUZZ = {"thorough": {"runs": 6000, "children": 4, "wall": 1500}}
+
+
+@st.composite
+def fuzz_cases(draw):
+    """cheap cases for the coverage-guided driver: synthetic outputs only (no runner call)"""
+    base = draw(synthetic())
+    base["chain"] = draw(st.lists(st.sampled_from(["tar", "yaml"]), min_size=1, max_size=3))
+    base["pdf"] = pdfs.smooth_params(draw, st)
+    return base
+
+
 def build_output(case):
     from yadism.esf.result import ESFResult, EXSResult
     from yadism.output import Output
